@@ -1,7 +1,14 @@
 import TexcraftModel.Util.Proto
 import TexcraftModel.Model.C15
+import TexcraftModel.Model.C15Font
 
-/-! Driver for C15 (hpack). One request:
+/-! Driver for C15 (hpack). Two requests: `hp` (below) and
+
+`tf <F> {<id> <nchars> {<c> <wi> <hi> <di>}* <nw> <w>* <nh> <h>* <nd> <d>*}^F <mode> <amount>
+<n> <node>… <rflag> […]` — the font repository as raw TFM tables (tables already scaled),
+nodes `20|21 <char> <font>` (Char|Ligature) or any `hp` item; reply `unregistered-font` (the
+real code must panic) or the `hp` reply followed by `tdims=<b>` (theorem `hpack_tfm_dims`
+evaluated: the model's dimensions equal the sums/maxima read off the raw tables).
 
 `hp <mode> <amount> <n> <item>… <rflag> [<h> <w> <d> <order> <num> <den>]`
 
@@ -15,7 +22,11 @@ Reply: `fits=<b> fitsold=<b> M <h w d o num den> O <…unpatched model…> S <h 
 ms=<b> is=<b> dims=<b> ord=<b> rat=<b> tex=<case> zhi=<b>` where `ms` = model agrees with
 the spec, `is`/`dims`/`ord`/`rat` = the *real* output agrees with the spec (whole / per
 clause; 1 when there is no real output), `tex` = the branch TeX takes, `zhi` = some glue
-item has an order above TeX's chosen one for the relevant sign (its total is zero). -/
+item has an order above TeX's chosen one for the relevant sign (its total is zero), `small` =
+TeX's size discipline `Small` holds (then `fits` must be 1: theorem `small_inRange`), `fill` =
+`fillsExactly` on the real box (node-by-node set widths add up to the box width), `mfill` = the
+same on the model's box (theorem `hpack_fills`), `le` = the `<=` variant `hpackLe` agrees with
+TeX (theorem `hpackLe_eq_tex`). -/
 open C15 Proto
 
 namespace DrvC15
@@ -75,6 +86,76 @@ def texCase (l : List Item) (pw : PackWidth) : String × Bool :=
     (if over then (if t.sign = .normal then "overfull-zero" else "overfull")
      else if t.sign = .normal then "shrink-unset" else "shrink", zhi)
 
+/-- The answer for a list of items, a target width and the real outcome (`tail`). -/
+def answer (l : List Item) (pw : PackWidth) (tail : List Int) : String :=
+  let m := hpack l pw
+  let old := hpackOld l pw
+  let s := texHpack l pw
+  let real : Option (Option HBox) :=
+    match tail with
+    | [0] => some none
+    | [1, h, w, d, o, num, den] => (decOrder o).map fun o => some ⟨h, w, d, o, num, den⟩
+    | _ => none
+  match real with
+  | none => "bad-request"
+  | some r =>
+    let (is, dims, ord, rat) :=
+      match r with
+      | none => (true, true, true, true)
+      | some b =>
+        (decide (b.agrees s),
+         decide (b.height = s.height ∧ b.width = s.width ∧ b.depth = s.depth),
+         decide (b.order = s.order),
+         decide ((⟨s.height, s.width, s.depth, s.order, b.num, b.den⟩ : HBox).agrees s))
+    let fill := match r with
+      | none => true
+      | some b => fillsExactly l pw b
+    let le := decide ((hpackLe l pw).agrees s)
+    let (tc, zhi) := texCase l pw
+    s!"fits={b2i (inRange l pw)} fitsold={b2i (inRangeOld l pw)} M {showBox m} O {showBox old} S {showTex s} ms={b2i (decide (m.agrees s))} is={b2i is} dims={b2i dims} ord={b2i ord} rat={b2i rat} tex={tc} zhi={b2i zhi} small={b2i (Small l pw)} fill={b2i fill} le={b2i le} mfill={b2i (fillsExactly l pw m)}"
+
+/-! `tf` requests: the font repository as raw TFM tables, glyph nodes as (char, font). -/
+
+def nat? (i : Int) : Option Nat := if i < 0 then none else some i.toNat
+
+def decChars : Nat → Cur → Option (List (Nat × CharDimens) × Cur)
+  | 0, c => some ([], c)
+  | n + 1, ch :: wi :: hi :: di :: t => do
+    let (l, c) ← decChars n t
+    pure ((← nat? ch, ⟨← nat? wi, ← nat? hi, ← nat? di⟩) :: l, c)
+  | _, _ => none
+
+/-- `id nchars (c wi hi di)* nw w* nh h* nd d*`. -/
+def decFont (c : Cur) : Option ((Nat × TfmFont) × Cur) :=
+  match c with
+  | id :: n :: t => do
+    let (chars, t) ← decChars (← nat? n) t
+    let (ws, t) ← takeList t
+    let (hs, t) ← takeList t
+    let (ds, t) ← takeList t
+    pure ((← nat? id, ⟨chars, ws, hs, ds⟩), t)
+  | _ => none
+
+def decFonts : Nat → Cur → Option (Repo × Cur)
+  | 0, c => some ([], c)
+  | n + 1, c => do
+    let (f, c) ← decFont c
+    let (r, c) ← decFonts n c
+    pure (f :: r, c)
+
+def decNodes : Nat → Cur → Option (List Node × Cur)
+  | 0, c => some ([], c)
+  | n + 1, 20 :: ch :: font :: t => do
+    let (l, c) ← decNodes n t
+    pure (.glyph (← nat? ch) (← nat? font) :: l, c)
+  | n + 1, 21 :: ch :: font :: t => do
+    let (l, c) ← decNodes n t
+    pure (.glyph (← nat? ch) (← nat? font) :: l, c)
+  | n + 1, c => do
+    let (i, c) ← decItem c
+    let (l, c) ← decNodes n c
+    pure (.other i :: l, c)
+
 def handle (line : String) : String :=
   match words line with
   | "hp" :: ws =>
@@ -83,29 +164,29 @@ def handle (line : String) : String :=
       if n < 0 ∨ (mode ≠ 0 ∧ mode ≠ 1) then "bad-request" else
       match decItems n.toNat rest with
       | some (l, tail) =>
-        let pw : PackWidth := if mode = 0 then .exact amount else .additional amount
-        let m := hpack l pw
-        let old := hpackOld l pw
-        let s := texHpack l pw
-        let real : Option (Option HBox) :=
-          match tail with
-          | [0] => some none
-          | [1, h, w, d, o, num, den] => (decOrder o).map fun o => some ⟨h, w, d, o, num, den⟩
-          | _ => none
-        match real with
-        | none => "bad-request"
-        | some r =>
-          let (is, dims, ord, rat) :=
-            match r with
-            | none => (true, true, true, true)
-            | some b =>
-              (decide (b.agrees s),
-               decide (b.height = s.height ∧ b.width = s.width ∧ b.depth = s.depth),
-               decide (b.order = s.order),
-               decide ((⟨s.height, s.width, s.depth, s.order, b.num, b.den⟩ : HBox).agrees s))
-          let (tc, zhi) := texCase l pw
-          s!"fits={b2i (inRange l pw)} fitsold={b2i (inRangeOld l pw)} M {showBox m} O {showBox old} S {showTex s} ms={b2i (decide (m.agrees s))} is={b2i is} dims={b2i dims} ord={b2i ord} rat={b2i rat} tex={tc} zhi={b2i zhi}"
+        answer l (if mode = 0 then .exact amount else .additional amount) tail
       | none => "bad-request"
+    | _ => "bad-request"
+  | "tf" :: ws =>
+    match ints? ws with
+    | some (nf :: rest) =>
+      if nf < 0 then "bad-request" else
+      match decFonts nf.toNat rest with
+      | some (repo, mode :: amount :: n :: rest) =>
+        if n < 0 ∨ (mode ≠ 0 ∧ mode ≠ 1) then "bad-request" else
+        match decNodes n.toNat rest with
+        | some (ns, tail) =>
+          let pw : PackWidth := if mode = 0 then .exact amount else .additional amount
+          match resolve repo ns with
+          | none => "unregistered-font"
+          | some l =>
+            -- theorem hpack_tfm_dims, evaluated: the box dimensions read off the raw tables
+            let b := hpack l pw
+            let tdims := decide (b.width = pw.width (sum (ns.map (Node.width repo))) ∧
+              b.height = max0 (ns.map (Node.height repo)) ∧ b.depth = max0 (ns.map (Node.depth repo)))
+            s!"{answer l pw tail} tdims={b2i tdims}"
+        | none => "bad-request"
+      | _ => "bad-request"
     | _ => "bad-request"
   | _ => "bad-request"
 
